@@ -831,6 +831,19 @@ def correspondence(case, impl, model):
     return None
 
 
+def thread_fields(th):
+    return {th["field"]} if th["op"] == "setattr" else set(th["kw"])
+
+
+def case_racy(case):
+    """may the threads of this case write DIFFERENT values into one shared cell? (then a deviation is attributed to the
+    known racy site at which the conflicting writes were observed)"""
+    if case["shape"] == "array_two_fields":   # homogeneous arrays with private item objects: racy iff a field is shared
+        fs = [thread_fields(th) for th in case["threads"]]
+        return any(fs[i] & fs[j] for i in range(len(fs)) for j in range(i + 1, len(fs)))
+    return shape(case["shape"]).racy
+
+
 def oracle(case, impl):
     """every thread's result must equal its sequential result"""
     fails = []
@@ -859,7 +872,7 @@ def oracle(case, impl):
         else:
             # shapes whose threads only ever write EQUAL values into a shared cell (same field, private item objects)
             # must be sequential: there a deviation is never attributed to a known racy site
-            keys = (o["conflicts"] if shape(case["shape"]).racy else []) or [f"nonsequential:{case['shape']}:{th['op']}"]
+            keys = (o["conflicts"] if case_racy(case) else []) or [f"nonsequential:{case['shape']}:{th['op']}"]
         for key in keys:
             if key in seen:
                 continue
